@@ -1,0 +1,14 @@
+//go:build !verif
+
+package scheduler
+
+// vtrace is a no-op unless the package is built with the "verif" tag.
+// See verif_on.go.
+func vtrace(id interface{}, ev string, j *ScheduledJob, err error, a, b, c, d int) {}
+
+func vbool(b bool) int {
+	if b {
+		return 1
+	}
+	return 0
+}
